@@ -272,6 +272,54 @@ def _classify(corr):
     return lines
 
 
+def kernel_crosscheck(ctx, limit=150):
+    """a sample of the `int` and `rbin` cases (all four integer types) evaluated by vm_compute inside coqc on
+    Model/Ints.v / Model/Ratio.v must give exactly what the EXTRACTED runner printed (cross-checks extraction, the
+    Z <-> zarith glue and the OCaml driver's parsing / printing on these cases)"""
+    import os
+    out = os.path.join(ctx.work, "corr")
+    try:
+        cases = open(os.path.join(out, "cases.txt")).read().splitlines()
+        model = open(os.path.join(out, "model.txt")).read().splitlines()
+    except OSError:
+        return {}, []
+    W = {"i32": "i32", "i64": "i64", "i128": "i128", "big": "Big"}
+    IOP = {"add": "iadd", "sub": "isub", "mul": "imul", "div": "iquot", "rem": "irem", "gcd": "igcd", "lcm": "ilcm"}
+    ROP = {"add": "rt_add", "sub": "rt_sub", "mul": "rt_mul", "div": "rt_div"}
+    z = lambda x: "(%d)%%Z" % int(x)
+
+    def ratio(x):
+        n, d = x.split("/")
+        return "(mkR %s %s)" % (z(n), z(d))
+
+    def oratio(x):
+        return "None" if x == "P" else "(Some %s)" % ratio(x)
+
+    ex = []
+    for kind, lim in (("int ", limit // 2), ("rbin ", limit - limit // 2)):
+        sel = [(c.split(), m) for c, m in zip(cases, model) if c.startswith(kind) and "UNREP" not in m]
+        step = max(1, len(sel) // lim)
+        for t, m in sel[::step][:lim]:
+            try:
+                if t[0] == "int":
+                    lhs = "%s %s %s %s" % (IOP[t[2]], W[t[1]], z(t[3]), z(t[4]))
+                    rhs = "None" if m == "P" else "Some %s" % z(m)
+                else:
+                    w = W[t[1]]
+                    r = m.split()
+                    lhs = ("(rt_new %s %s %s, rt_new %s %s %s, match rt_new %s %s %s, rt_new %s %s %s with "
+                           "Some x, Some y => Some (%s %s x y) | _, _ => None end)" % (
+                               w, z(t[3]), z(t[4]), w, z(t[5]), z(t[6]), w, z(t[3]), z(t[4]), w, z(t[5]), z(t[6]),
+                               ROP[t[2]], w))
+                    rhs = "(%s, %s, %s)" % (oratio(r[0]), oratio(r[1]),
+                                            "None" if r[2] == "-" else "Some %s" % oratio(r[2]))
+            except (KeyError, ValueError, IndexError):
+                continue
+            ex.append((lhs, rhs))
+    pre = ["From Coq Require Import ZArith.", "Require Import Yui.Model.Ints Yui.Model.Ratio."]
+    return C.kernel_examples(ctx, pre, ex)
+
+
 def run(ctx):
     obl = C.coq_obligations(ctx.pid, ["Extract/ExtractC14.vo"])
     extra = {}
@@ -281,6 +329,11 @@ def run(ctx):
     explain = None
     if corr.get("ok"):
         extra.update(_stats(ctx))
+        info, probs = kernel_crosscheck(ctx)
+        extra.update(info)
+        if probs:
+            obl["problems"] = obl.get("problems", []) + probs
+            obl["ok"] = False
         extra["forms_differ"] = sum(1 for (_, _, a, _) in corr["disagreements"] if "FORMS-DIFFER" in a)
         extra["order_inconsistent"] = sum(1 for (_, _, a, _) in corr["disagreements"] if "ORDER-INCONSISTENT" in a)
         if corr["disagreements"]:
